@@ -134,6 +134,21 @@ def handle (st : St) (args : List String) (impl : String) : St × Verdict :=
       let (n', r) := deliverHeader p n blk
       (setNode st s n', cmpDeliver r impl)
     | _, _ => (st, .unknown)
+  | "txmat" :: s :: rest | "txlock" :: s :: rest | "txval" :: s :: rest =>
+    match getNode st s, kv rest "ins", kv rest "outs", kv rest "kers" with
+    | some n, some i, some o, some k =>
+      match (listItems i).mapM idOf, (listItems o).mapM idOf, (listItems k).mapM parseKer, n.stateAt p n.head with
+      | some ins, some outs, some kers, .ok hs =>
+        let t : TxA := { ins, outs, kers }
+        let r := match args.head? with
+          | some "txmat" => txMaturity p hs t
+          | some "txlock" => txLock hs t
+          | _ => txValidate hs t
+        -- admission decisions are fixed by the property: accept / refuse is spec, the class internal
+        let m := match r with | some e => s!"err:{e}" | none => "ok"
+        (st, cmpDeliver m impl)
+      | _, _, _, _ => (st, .unknown)
+    | _, _, _, _ => (st, .unknown)
   | ["obs", s] =>
     match getNode st s with
     | some n =>
